@@ -185,6 +185,24 @@ def verify_function(reg, sources, key, canary=True):
         except RaiseEx as r:
             outcome, value = "raise", r
         st.frames = [fr0]
+        if outcome in ("return", "raise") and not getattr(c, "no_frame_check", False):
+            # frame: a declared (mutable) field that the contract's modifies clause does not name is unchanged on
+            # every object when the function returns -- callers rely on exactly this at call sites
+            from .exec import heap_lookup
+            named = {m.partition("@")[0] for m in c.modifies}
+            for ci_ in reg.classes.values():
+                for fi_ in ci_.fields.values():
+                    a_ = fi_.name
+                    if fi_.kind == "imm" or a_ in named or a_.startswith("$"):
+                        continue
+                    named.add(a_)  # once per attribute name
+                    cur = st.heap.get(a_)
+                    if cur is None:
+                        continue
+                    was = heap_lookup(old_heap, a_)
+                    if cur.eq(was):
+                        continue
+                    ctx.oblige(f"{qual}#frame:{a_}", cur == was, {"kind": "frame"})
         if outcome == "return":
             for name, post in eval_ensures_all(ex, ctx, st, c, args, value, old_heap):
                 ctx.oblige(f"{qual}#{name}", post, {"kind": "postcondition"})
